@@ -125,10 +125,10 @@ Cid(kind, v, p, s, f, ah) == ToString(<<kind, v, p, s, f, ah>>)
 
 ExecState(vt, v, p, s, f, args) ==
     [k |-> "exec", vt |-> vt, c |-> Cid("sr", v, p, s, f, Arr(args)), g |-> -1, v |-> v, p |-> p, s |-> s, f |-> f,
-     lens |-> "", ah |-> Arr(args)]
+     lens |-> "", ah |-> Arr(args), sn |-> ""]
 UnusedState(v) ==
     [k |-> "exec", vt |-> "unused", c |-> Cid("val", v, "", "", "", V("h", "", <<>>)), g |-> -1, v |-> v,
-     p |-> "", s |-> "", f |-> "", lens |-> "", ah |-> V("h", "", <<>>)]
+     p |-> "", s |-> "", f |-> "", lens |-> "", ah |-> V("h", "", <<>>), sn |-> ""]
 FailedState(v, p, s, f, args) ==
     [k |-> "failed", c |-> Cid("sr", v, p, s, f, Arr(args)), v |-> v, p |-> p, s |-> s, f |-> f,
      lens |-> "", ah |-> Arr(args)]
